@@ -449,6 +449,10 @@ def build(reg, src):
     from pyvc.leancheck import lean_check
     reg.extra_checks.append(lean_check('MapSum.lean', ['msum_update', 'msum_term_le', 'nonneg_update', 'msum_empty', 'msum_nonneg']))
     from replay import c16 as rp
+    # batteries of the sub-verifications: registered so that the thorough tier runs them proactively on the real code
+    reg.replays.append((r'#owns\.|#returns-a-new-table', rp.replay_table_ownership))
+    reg.replays.append((r'PandasDataFrameCache\.update#', rp.replay_table_merge))
+    reg.replays.append((r'recover_memory', rp.replay_evict_during_pending_write))
     reg.replays.append((r'.', rp.replay_kvs_generic))
 
 
